@@ -43,7 +43,7 @@ CHECKS = {
              "SDend/SDstart restarts. Oracle: n-d array model (written / fill / unspecified cells), full read-back "
              "after every restart. 10 000 (quick) / 200 000 (thorough) histories.",
         note="Trusts the array model and the default fill constants of mfhdf.h; cells left unspecified by fill mode "
-             "off or by a refused write are not compared; one known finding kept out by a guard.",
+             "off or by a refused write are not compared; partly written records in no-fill mode are in the search (fix aa822c5); one known finding (refused out-of-range write to an unlimited dataset in no-fill mode counts records) kept out by a guard.",
         tech=TECH % ("", "oracle = n-dimensional array reference model"),
     ),
     "C04": dict(
